@@ -123,10 +123,11 @@ fn check_extract(t: &FieldType, c_copy: &Cbor, c: Cbor) {
         }
         Err(_) => (true, true, true),
     };
-    assert!(r.is_ok() == matching, "OBL:C13.leaf.extract_iff_matching");
+    // what comes out first, which CBOR is let in last (see check_cell on the order)
     assert!(valid, "OBL:C13.leaf.extract_validates");
     assert!(declared, "OBL:C13.leaf.extract_declared_variant");
     assert!(same, "OBL:C13.leaf.extract_same_value");
+    assert!(r.is_ok() == matching, "OBL:C13.leaf.extract_iff_matching");
     kani::cover!(r.is_ok(), "COVER:extracted");
     kani::cover!(r.is_err(), "COVER:extract_rejected");
 }
